@@ -7,15 +7,17 @@ import (
 	"fmt"
 	"go/ast"
 	"go/token"
+	"go/types"
 	"sort"
 	"strconv"
 	"strings"
 )
 
-// formatImportLit finds the function literal stored under "formatImport" in
-// the template function map of package tree.
-func formatImportLit(r *Repo) *ast.FuncLit {
-	var lit *ast.FuncLit
+// formatImportExpr finds the expression stored under "formatImport" in the
+// template function map of package tree: a function literal, a function name or
+// a method expression.
+func formatImportExpr(r *Repo) ast.Expr {
+	var e ast.Expr
 	for _, f := range r.pkg("tree").Syntax {
 		ast.Inspect(f, func(n ast.Node) bool {
 			kv, ok := n.(*ast.KeyValueExpr)
@@ -24,15 +26,83 @@ func formatImportLit(r *Repo) *ast.FuncLit {
 			}
 			if bl, ok := kv.Key.(*ast.BasicLit); ok && bl.Kind == token.STRING {
 				if s, err := strconv.Unquote(bl.Value); err == nil && s == "formatImport" {
-					if fl, ok := kv.Value.(*ast.FuncLit); ok {
-						lit = fl
-					}
+					e = kv.Value
 				}
 			}
 			return true
 		})
 	}
-	return lit
+	return e
+}
+
+// formatImportApply makes the registered function applicable to one element of
+// t.Imports, whatever the element's representation.
+func formatImportApply(it *Interp, e ast.Expr) func(Value) (string, error) {
+	one := func(res []Value) (string, error) {
+		if len(res) != 1 {
+			return "", fmt.Errorf("formatImport did not return one value")
+		}
+		line, ok := res[0].(string)
+		if !ok {
+			return "", fmt.Errorf("formatImport returned %s", describe(res[0]))
+		}
+		return line, nil
+	}
+	switch x := ast.Unparen(e).(type) {
+	case *ast.FuncLit:
+		fn := it.eval(x, newEnv(nil))
+		return func(v Value) (string, error) { return one(it.callValue(x, fn, []Value{v})) }
+	case *ast.Ident:
+		if f, ok := it.info.Uses[x].(*types.Func); ok {
+			if fd := it.decls[f]; fd != nil {
+				return func(v Value) (string, error) { return one(it.callDecl(fd, nil, v)) }
+			}
+		}
+	case *ast.SelectorExpr:
+		if sel := it.info.Selections[x]; sel != nil && sel.Kind() == types.MethodExpr {
+			if f, ok := sel.Obj().(*types.Func); ok {
+				if fd := it.decls[f]; fd != nil {
+					return func(v Value) (string, error) { return one(it.callDecl(fd, v)) }
+				}
+			}
+		}
+	}
+	return nil
+}
+
+// printedImports: the import specs the template prints for the tree's import
+// list, in order, each split into name and path.
+func printedImports(r *Repo, it *Interp, tree *Obj) (specs [][2]string, err error) {
+	e := formatImportExpr(r)
+	if e == nil {
+		return nil, fmt.Errorf("the function registered as formatImport was not found")
+	}
+	apply := formatImportApply(it, e)
+	if apply == nil {
+		return nil, fmt.Errorf("the function registered as formatImport is neither a literal, a function nor a method expression of the package")
+	}
+	s, ok := tree.field("Imports").v.(*SliceV)
+	if !ok || s == nil {
+		return nil, nil
+	}
+	for _, el := range s.elems {
+		line, err := apply(el)
+		if err != nil {
+			return nil, err
+		}
+		line = strings.TrimSpace(line)
+		name, path := "", line
+		if i := strings.Index(line, " "); i >= 0 && !strings.HasPrefix(line, "\"") {
+			name, path = line[:i], strings.TrimSpace(line[i+1:])
+		}
+		if p, err := strconv.Unquote(path); err == nil {
+			path = p
+		} else {
+			return nil, fmt.Errorf("formatImport printed %q, which is not an import spec", line)
+		}
+		specs = append(specs, [2]string{name, path})
+	}
+	return specs, nil
 }
 
 // runtimeImportPaths: the string literals Compile passes to AddImport itself.
@@ -71,9 +141,9 @@ func importAlias(c *Check, r *Repo) {
 		c.Und("R-import-alias", "Compile/region", "", strings.Join(rg.problems, "; "))
 		return
 	}
-	lit := formatImportLit(r)
+	lit := formatImportExpr(r)
 	if lit == nil {
-		c.Und("R-import-alias", "templateFuncs/formatImport", "", "the function literal registered as formatImport was not found")
+		c.Und("R-import-alias", "templateFuncs/formatImport", "", "the function registered as formatImport was not found")
 		return
 	}
 	rt := runtimeImportPaths(r)
@@ -128,21 +198,17 @@ func importAlias(c *Check, r *Repo) {
 				und = em.Err
 				return
 			}
-			fn := fm.it.eval(lit, newEnv(nil))
 			got := map[string]int{}
-			if s, ok := fm.tree.field("Imports").v.(*SliceV); ok && s != nil {
-				for _, e := range s.elems {
-					res := fm.it.callValue(lit, fn, []Value{e})
-					if len(res) != 1 {
-						und = "formatImport did not return one value"
-						return
-					}
-					line, ok := res[0].(string)
-					if !ok {
-						und = "formatImport returned " + describe(res[0])
-						return
-					}
-					got[strings.TrimSpace(line)]++
+			specs, err := printedImports(r, fm.it, fm.tree)
+			if err != nil {
+				und = err.Error()
+				return
+			}
+			for _, sp := range specs {
+				if sp[0] != "" {
+					got[fmt.Sprintf("%s %q", sp[0], sp[1])]++
+				} else {
+					got[strconv.Quote(sp[1])]++
 				}
 			}
 			n++
